@@ -456,6 +456,16 @@ def _call(f, *a, **kw):
 
 
 def run_impl(case):
+    """the observations are returned as one JSON string (field "z"): the big runs keep hundreds of thousands of results
+    in memory, and a string is several times smaller than the tree; `_unz` decodes it where it is used"""
+    return {"z": jdump(_run_impl(case))}
+
+
+def _unz(r):
+    return json.loads(r["z"]) if isinstance(r, dict) and "z" in r else r
+
+
+def _run_impl(case):
     import lena.context as lc
     op = case["op"]
     if op == "pair":
@@ -716,6 +726,8 @@ def compare(case, res, replies):
     for m in replies:
         if "err" in m:
             return f"model driver error: {m['err']}"
+    res = _unz(res)
+    replies = [_unz(m) for m in replies]
     e = _enc(case)
     if op == "pair":
         m = replies[0]
@@ -836,7 +848,7 @@ def _oracle_inter(lv, ds, res, what):
 
 def oracle(case, res):
     """None if the property's statement holds on this case, else "[tag] description" (the tag is the signature)"""
-    msg = _oracle(case, res)
+    msg = _oracle(case, _unz(res))
     if msg is None:
         return None
     for tag, pat in _TAGS:
@@ -1014,6 +1026,7 @@ def _has_falsy_leaf(v):
 
 
 def classify(case, res):
+    res = _unz(res)
     op = case["op"]
     if op == "pair":
         a, b = case["a"], case["b"]
